@@ -176,7 +176,7 @@ def run_real(c, eff, cap, ops, spied=True, instrumented=True, want_spy=False, tw
             else:
                 if a >= 90 and hasattr(chart, "current_state"):
                     chart.current_state()      # a handler asking the chart for its state (no line, no effect)
-                chart.scribble("SCRIBBLE%d" % a)
+                chart.scribble(charts.scribble_value(a))
 
     fns = c.build(log, spied=spied, counter=hsm._vp_count, effects=effects)
     inv = {getattr(getattr(f, "__wrapped__", f), "__name__"): i for i, f in fns.items()}
@@ -446,7 +446,9 @@ def explore_failed_step(run, focus, n):
     for _ in range(n):
         instrumented = rng.random() < 0.5
         circuit = rng.random() < 0.4
-        how = rng.choice(["raises", "none"])
+        how = rng.choice(["raises", "raises", "none"])
+        exc_type = rng.choice([ValueError, IndexError, KeyError, LookupError, StopIteration, AttributeError, RuntimeError, TypeError,
+                               AssertionError, ZeroDivisionError, OSError, type("HandlerFailed", (Exception,), {})])
         log = []
 
         def st(chart, e):
@@ -457,7 +459,7 @@ def explore_failed_step(run, focus, n):
                     if posts_first:
                         chart.post_fifo(Event(signal="LATER", payload=e.payload))
                     if how == "raises":
-                        raise ValueError("handler failed")
+                        raise exc_type("handler failed")
                     return None
                 return return_status.HANDLED
             if e.signal in (signals.ENTRY_SIGNAL, signals.INIT_SIGNAL, signals.EXIT_SIGNAL):
@@ -484,20 +486,30 @@ def explore_failed_step(run, focus, n):
             if sn == "BAD" and posts_first:
                 q.append(("LATER", k))
         failures = 0
+        left_pending = None
         for _ in range(4 * len(script) + 4):
             try:
                 if circuit:
                     hsm.complete_circuit()
+                    if len(hsm.queue) != 0 and left_pending is None:
+                        left_pending = len(hsm.queue)
                 else:
                     hsm.next_rtc()
-            except (ValueError, mhsm.HsmTopologyException):
+            except (exc_type, mhsm.HsmTopologyException):
                 failures += 1
             if len(hsm.queue) == 0:
                 break
         cj = {"what": "failed-step", "script": script, "instrumented": instrumented, "complete_circuit": circuit, "how": how,
-              "posts_first": posts_first}
-        run.count("a failing step (%s), driver catches and continues" % how)
+              "posts_first": posts_first, "exception": exc_type.__name__}
+        run.count("a failing step (%s), driver catches and continues" % (how if how == "none" else "raises " + exc_type.__name__))
         run.traces_validated += 1
+        if left_pending is not None:
+            run.violate("%s/complete-circuit-returned-with-events-pending" % focus, "script %s (BAD's handler raises %s): complete_circuit() "
+                        "returned normally with %d event(s) still queued" % (script, exc_type.__name__, left_pending), cj)
+        n_bad = sum(1 for sn, _ in log if sn == "BAD")
+        if failures != n_bad and log == want:
+            run.violate("%s/failed-step-exception-lost" % focus, "script %s: %d steps failed (handler %s) but the driver saw %d exceptions"
+                        % (script, n_bad, "raises " + exc_type.__name__ if how == "raises" else "returns no status", failures), cj)
         if log != want:
             run.violate("%s/failed-step" % focus, "script %s (BAD's handler %s%s), driven by %s, exceptions caught: dispatched %s, a double-ended "
                         "queue driven by the same operations gives %s" % (script, "posts LATER and " if posts_first else "", "raises" if how == "raises"
